@@ -1250,7 +1250,7 @@ pub fn fixture_input() -> Value {
 /// Replays the reference model against the frozen node-semver answers.
 /// Returns (cases, cells, disagreements, note). A disagreement is a machinery error.
 pub fn oracle_crosscheck() -> Result<(u64, u64, u64, String), String> {
-    let path = format!("{}/fixtures/npm-7.6.2/answers.json", VERIF_DIR);
+    let path = format!("{}/fixtures/npm-7.6.2/answers.json", home_dir());
     let txt = std::fs::read_to_string(&path).map_err(|e| format!("{}: {}", path, e))?;
     let fx: Value = serde_json::from_str(&txt).map_err(|e| format!("{}: {}", path, e))?;
     let e = EngA::new("thorough");
